@@ -112,7 +112,8 @@ def roundtrip_part(ctx: vlib.Ctx):
     from mashumaro.codecs.basic import BasicDecoder, BasicEncoder
     ctx.theorems("props/C01_roundtrip.vo", ["C01_roundtrip", "C01_conf_ord_is_conf", "C01_roundtrip_codec", "C01_roundtrip_total"])
     ctx.theorems("props/C01_ntdict.vo", ["C01_ntdict_roundtrip", "C01_ntdict_roundtrip_total"])
-    ctx.coqchk(["VerifProps.C01_roundtrip", "VerifProps.C01_tz", "VerifProps.C01_ntdict"])
+    ctx.theorems("props/C01_typevar.vo", ["C01_typevar_roundtrip_total"], kernels=["K45c"])
+    ctx.coqchk(["VerifProps.C01_roundtrip", "VerifProps.C01_tz", "VerifProps.C01_ntdict", "VerifProps.C01_typevar"])
     ctx.trusted.append("TyModel.v (cp/pk, cu/uk) tied by vm_compute correspondence; stdlib render/parse pairs are oracle functions whose "
                        "round-trip law is a hypothesis of the theorem restricted to the values present (atoms_ok)")
     ctx.assumptions.append("unions are decided under C11 (Literal types of int/str/bool/None constants are inside the Coq grammar; enum-member and bytes literals are not). Abstract / special collection classes (Sequence, Mapping, Deque, OrderedDict, DefaultDict (factory not part of the value), "
@@ -126,6 +127,7 @@ def roundtrip_part(ctx: vlib.Ctx):
     hits = tyoracle.report_corr(ctx, "TyModel (pk, uk) vs BasicEncoder/BasicDecoder", cases, bad, log)
     ncases, nbad, nlog = tycorr.run_nd(ctx, "c01_nd", ctx.budget(16, 120), foreign=1)
     hits += tyoracle.report_corr(ctx, "TyNtDict (pk_nd, uk_nd) vs BasicEncoder/BasicDecoder under an as_dict dialect", ncases, nbad, nlog)
+    tv_part(ctx, "c01_tv", None, ctx.budget(12, 100))
     n = ctx.budget(900, 6000) if not hits else ctx.budget(2500, 12000)
     for fam, ns, t, ty, sg in tyoracle.schema_stream(ctx.rng, n, literals=True):
         try:
@@ -157,6 +159,25 @@ def roundtrip_part(ctx: vlib.Ctx):
         for n_ in t.walk():
             ctx.hist("oracle_type_constructors", n_.kind)
         fam.dispose()
+
+
+def tv_part(ctx: vlib.Ctx, name: str, want, n: int):
+    """dataclasses with fields annotated by type variables (unspecialised: TyTypeVar.tv_sty; specialised: the argument) vs the Coq model"""
+    from harness import tycorr
+    cases, bad, log = tycorr.run_tv(ctx, name, n)
+    title = "TyModel over tv_sty vs BasicEncoder/BasicDecoder of generic dataclasses (G / G[...])"
+    sel = [i for i, c in enumerate(cases) if want is None or c["kind"] == want or c["kind"] == "build"]
+    if bad is None:
+        ctx.correspondence(title, len(sel), -1, log)
+        ctx.not_shown("correspondence " + title, log)
+        return
+    hits = [i for i in bad if i in set(sel)]
+    detail = "; ".join(f"{cases[i]['kind']} {cases[i]['src'].split('@dataclass')[1][:160]!r} {repr(cases[i].get('value', cases[i].get('input')))[:120]} -> {repr(cases[i]['out'])[:120]}" for i in hits[:3])
+    ctx.correspondence(title, len(sel), len(hits), detail)
+    if hits:
+        ctx.not_shown("correspondence " + title, detail)
+    for c in cases:
+        ctx.hist("case_kinds", "tv-" + c["kind"] + ":" + c["out"][0])
 
 
 def as_dict_part(ctx: vlib.Ctx):
